@@ -450,7 +450,15 @@ def check_archives(ck, n, root):
 def run(ck):
     check_legacy_cards(ck, ck.n(250, 5000))
     with scratch.tmpdir(prefix="c41-") as root:
-        check_archives(ck, ck.n(40, 500), pathlib.Path(root))
+        import tempfile
+
+        old_tmp = tempfile.tempdir
+        (pathlib.Path(root) / "tmp").mkdir()
+        tempfile.tempdir = str(pathlib.Path(root) / "tmp")  # eko's own temporary directories go to scratch too
+        try:
+            check_archives(ck, ck.n(40, 500), pathlib.Path(root))
+        finally:
+            tempfile.tempdir = old_tmp
     # translation-validation coverage: translated inputs, and translations whose output was compared
     ck.note(
         programs=int(ck.hits.get("legacy_cards_converted", 0) + ck.hits.get("archives_read", 0)),
